@@ -5,18 +5,18 @@ from .. import cases, oracles
 from . import _align_common as ac
 
 TITLE = "Built-in dissimilarities compute their documented formula in both forms"
-DECIDING = ["M-FORMULA", "M-COMPILED", "M-KERNEL-VIA-CONTINUUM", "M-SYMMETRY", "M-LABEL-ORDER", "M-OLDER-INSTANCE", "M-PRE-USE"]
+DECIDING = ["M-FORMULA", "M-COMPILED", "M-KERNEL-VIA-CONTINUUM", "M-SYMMETRY", "M-LABEL-ORDER", "M-OLDER-INSTANCE", "M-PRE-USE", "M-SHARED-COMPONENT"]
 LEVEL = "exploration"
 RULE = ("a case = one dissimilarity instance (every built-in class; delta_empty, alpha, beta from the documented value "
         "sets; labels supplied sorted or shuffled; 1-300 categories; precomputed matrices as float32, float64, integer or boolean "
-        "arrays; ordinal positions small or with a large common offset; components built with the same or another "
+        "arrays, some overwritten by the caller after construction; ordinal positions small or with a large common offset, as floats, plain ints or numpy (unsigned) integer arrays; components built with the same or another "
         "delta_empty) and 12-24 random unit pairs (ten segment families; labels from the instance's categories); for "
         "each pair: d(), the compiled value through UnitaryAlignment(...).compute_disorder and through "
         "valid_alignments on a 2-annotator continuum, the documented formula, symmetry, non-negativity, zero on "
         "identical units; per instance: the same two names in a twin instance built with shuffled labels / extra "
         "categories; histories: a categorical component that was used (d() called) before being handed to the combined "
         "constructor, and the previous case's instance measured again after the current one was built (several instances "
-        "alive at once). non-trivial = pair of different units; distinct by SHA-1 of (instance, pairs)")
+        "alive at once), one component object shared by two combined dissimilarities with different delta_empty. non-trivial = pair of different units; distinct by SHA-1 of (instance, pairs)")
 ASSUMPTIONS = [
     "tolerance |a-b| <= 1e-5*max(|a|,|b|) + 1e-6*delta_empty (compiled form is float32)",
     "generated times are float32-representable, so both forms see the same numbers",
@@ -149,8 +149,34 @@ def build_with_history(ctx, case):
                                                pos_dissim=pos, cat_dissim=comp)
 
 
+def check_shared_component(ctx, case):
+    """ONE component object (categorical or positional) handed to two combined dissimilarities with different delta_empty:
+    each of the two must follow the formula with its own delta_empty, the older one also after the newer one was built."""
+    import pygamma_agreement as pa
+    a_spec, b_spec = case["dissim"], case["dissim_b"]
+    try:
+        cat = cases.build_dissim(a_spec["cat"]) if a_spec.get("cat") else None
+        pos = pa.PositionalSporadicDissimilarity(a_spec["pos"]["delta"]) if a_spec.get("pos") else None
+        kw = {}
+        if cat is not None:
+            kw["cat_dissim"] = cat
+        if pos is not None:
+            kw["pos_dissim"] = pos
+        A = pa.CombinedCategoricalDissimilarity(alpha=a_spec["alpha"], beta=a_spec["beta"], delta_empty=a_spec["delta"], **kw)
+        _measure_all(ctx, dict(case, pairs=case["pairs"][:6], twin=None), A, tag="shared-component:first:")
+        B = pa.CombinedCategoricalDissimilarity(alpha=b_spec["alpha"], beta=b_spec["beta"], delta_empty=b_spec["delta"], **kw)
+    except Exception as e:
+        ctx.fail_exc(f"shared-component:constructor-raises:{type(e).__name__}", e, monitor="M-FORMULA")
+        return
+    ctx.count("M-SHARED-COMPONENT")
+    _measure_all(ctx, dict(case, twin=None), A, tag="shared-component:first-after-second-was-built:")
+    _measure_all(ctx, dict(case, dissim=b_spec, twin=None), B, tag="shared-component:second:")
+
+
 def check_case(ctx, case):
     ac.setup(ctx)
+    if case.get("dissim_b"):
+        return check_shared_component(ctx, case)
     dspec = case["dissim"]
     try:
         dissim = build_with_history(ctx, case)
@@ -423,6 +449,18 @@ def run(ctx):
         case = {"dissim": dspec, "pairs": gen_pairs(rng, labels, 14), "pre_use": True}
         ctx.begin_case(case)
         ctx.observe("class", "history-block/" + cat_component(dspec)["kind"])
+        check_case(ctx, case)
+    # (3) ONE component object shared by two combined dissimilarities with different delta_empty
+    for kind in ("precomputed", "levenshtein", "ordinal", "numerical", "absolute", None):
+        comp = cases.gen_dissim(rng, [kind]) if kind else None
+        d1, d2 = rng.sample(cases.DELTAS, 2)
+        pos = {"delta": rng.choice(cases.DELTAS)} if (kind is None or rng.random() < 0.5) else None
+        a_spec = {"kind": "combined", "alpha": rng.choice([0.5, 1.0, 3.0]), "beta": rng.choice([0.5, 1.0, 3.0]), "delta": d1, "pos": pos, "cat": comp}
+        b_spec = dict(a_spec, delta=d2, alpha=rng.choice([0.5, 1.0]), beta=rng.choice([1.0, 3.0]))
+        labels = cases.dissim_labels(a_spec) or cases.LABELS_SMALL + ["Noun", "10"]
+        case = {"dissim": a_spec, "dissim_b": b_spec, "pairs": gen_pairs(rng, labels, 12)}
+        ctx.begin_case(case)
+        ctx.observe("class", "shared-component/" + (kind or "positional-only"))
         check_case(ctx, case)
     n_inst = ctx.scale(40, 800)
     for i in range(n_inst):
